@@ -405,6 +405,28 @@ def _exit_status(ctx: Ctx, e) -> None:
         for b in per_file:
             scenarios.append([a, b])
     n_eval = 0
+
+    # the messages the command has to print are the ones Validator.create_message really builds (evaluated):
+    # for an object with a recorded position, and for the root SYMBOLSET of a symbol file, whose keyword is
+    # synthesised and has no line / column of its own
+    def real_message(line, col):
+        from ..layout import cdict
+
+        I0 = e.interp(allow_fork=False, max_depth=30)
+
+        def make():
+            p_ = HDict()
+            p_.pytype = "OrderedDict"  # type: ignore[misc]
+            p_["line"], p_["column"] = line, col
+            root = cdict([("__type__", "symbolset"), ("__position__", p_)])
+            return models.new_validator(I0), [root, [], SObj("ValidationError", {"message": "msg"}), False], {}
+
+        outs0 = I0.explore("validator.Validator.create_message", make)
+        if len(outs0) != 1 or outs0[0].kind != "return" or not isinstance(outs0[0].value, dict):
+            raise AnalysisError(f"create_message not evaluable on a root-level error: {[(o.kind, o.exc) for o in outs0]}")
+        return outs0[0].value
+
+    protos = [real_message(None, None), real_message(3, 5)]
     for sc in scenarios:
         files = [f"f{i}.map" for i in range(len(sc))]
         echo: list = []
@@ -426,7 +448,7 @@ def _exit_status(ctx: Ctx, e) -> None:
             out = []
             for k in range(sc[i]):
                 m = HDict()
-                m.update({"error": f"e{k}", "message": f"m{k}", "line": 1, "column": 1})
+                m.update(protos[k % 2])  # first the position-less root message, then one with a position
                 out.append(m)
             return out
 
@@ -461,7 +483,7 @@ def _exit_status(ctx: Ctx, e) -> None:
         elif o.kind == "return":
             status = 0
         else:
-            ctx.finding("P11", f"scenario {sc}", loc, f"raises {o.exc}")
+            ctx.finding("P11", f"scenario {sc}", loc, f"'validate' raises {o.exc} while reporting the messages the validator builds (keys {[sorted(p_.keys()) for p_ in protos]}: a root-level error of a symbol file, whose SYMBOLSET keyword has no position, and an ordinary one): no summary, wrong exit status")
             continue
         if status is None:
             status = 0
